@@ -200,7 +200,7 @@ impl Dictionary {
 
         if entry.flag == 0 {
             let pos = (entry.offset / 2) as i32 + sibling_id;
-            if pos as usize > self.header.chara.len() {
+            if pos as usize >= self.header.chara.len() {
                 return None;
             }
 
